@@ -121,7 +121,7 @@ class assert_less(RuntimeAssertionFeedback):
 
     def condition(self, left, right):
         """ Tests if the left is greater or equal """
-        return left.value >= right.value
+        return not (left.value < right.value)
 
 
 class assert_less_equal(RuntimeAssertionFeedback):
@@ -137,7 +137,7 @@ class assert_less_equal(RuntimeAssertionFeedback):
 
     def condition(self, left, right):
         """ Tests if the left is greater than the right """
-        return left.value > right.value
+        return not (left.value <= right.value)
 
 
 class assert_greater(RuntimeAssertionFeedback):
@@ -153,7 +153,7 @@ class assert_greater(RuntimeAssertionFeedback):
 
     def condition(self, left, right):
         """ Tests if the left is less than or equal to the right """
-        return left.value <= right.value
+        return not (left.value > right.value)
 
 
 class assert_greater_equal(RuntimeAssertionFeedback):
@@ -169,7 +169,7 @@ class assert_greater_equal(RuntimeAssertionFeedback):
 
     def condition(self, left, right):
         """ Tests if the left is less than the right """
-        return left.value < right.value
+        return not (left.value >= right.value)
 
 
 class assert_in(RuntimeAssertionFeedback):
@@ -185,7 +185,7 @@ class assert_in(RuntimeAssertionFeedback):
 
     def condition(self, needle, haystack):
         """ Tests if the needle is not in the haystack """
-        return needle.value not in haystack.value
+        return unwrap_value(needle.value) not in unwrap_value(haystack.value)
 
 
 class assert_not_in(RuntimeAssertionFeedback):
@@ -201,7 +201,7 @@ class assert_not_in(RuntimeAssertionFeedback):
 
     def condition(self, needle, haystack):
         """ Tests if the needle is in the haystack """
-        return needle.value in haystack.value
+        return unwrap_value(needle.value) in unwrap_value(haystack.value)
 
 
 class assert_contains_subset(RuntimeAssertionFeedback):
@@ -417,7 +417,7 @@ class assert_length_less(RuntimeAssertionFeedback):
 
     def condition(self, sequence, length):
         """ Tests if the needle is not in the haystack """
-        return len(sequence.value) >= length.value
+        return not (len(sequence.value) < length.value)
 
 
 class assert_length_less_equal(RuntimeAssertionFeedback):
@@ -434,7 +434,7 @@ class assert_length_less_equal(RuntimeAssertionFeedback):
 
     def condition(self, sequence, length):
         """ Tests if the needle is not in the haystack """
-        return len(sequence.value) > length.value
+        return not (len(sequence.value) <= length.value)
 
 
 class assert_length_greater(RuntimeAssertionFeedback):
@@ -450,7 +450,7 @@ class assert_length_greater(RuntimeAssertionFeedback):
 
     def condition(self, sequence, length):
         """ Tests if the needle is not in the haystack """
-        return len(sequence.value) <= length.value
+        return not (len(sequence.value) > length.value)
 
 
 class assert_length_greater_equal(RuntimeAssertionFeedback):
@@ -467,7 +467,7 @@ class assert_length_greater_equal(RuntimeAssertionFeedback):
 
     def condition(self, sequence, length):
         """ Tests if the needle is not in the haystack """
-        return len(sequence.value) < length.value
+        return not (len(sequence.value) >= length.value)
 
 
 class assert_is_instance(RuntimeAssertionFeedback):
@@ -584,7 +584,7 @@ class assert_regex(RuntimeAssertionFeedback):
 
     def condition(self, regex, text):
         """ Tests if the regex matches the text """
-        return re.search(regex.value, str(text.value)) is None
+        return re.search(unwrap_value(regex.value), str(text.value)) is None
 
 
 class assert_not_regex(RuntimeAssertionFeedback):
@@ -600,7 +600,7 @@ class assert_not_regex(RuntimeAssertionFeedback):
 
     def condition(self, regex, text):
         """ Tests if the regex does not match the text """
-        return re.search(regex.value, str(text.value)) is not None
+        return re.search(unwrap_value(regex.value), str(text.value)) is not None
 
 
 class assert_almost_equal(assert_equal):
